@@ -31,16 +31,17 @@ CONSTANTS GW, GI, RI,        \* group_wait, group_interval, repeat_interval of t
           Windows,           \* receiver script: sequence of [integ, from, to, kind]
           Used,              \* alerts the environment may post
           SilLib,            \* matcher sets the environment may silence with
-          MaxTime, MaxPosts, MaxSils,
+          MaxTime, MaxPosts, MaxSils, MaxReloads,
           RetryGap           \* retry delay after a recoverable failure (abstract units)
 
 VARIABLES grp,     \* group id -> [gk, al, due, st, dead, tick, dl, frozen, pl, pc]
           gmap,    \* group key -> id of the group the dispatcher's map holds
           nfl,     \* <<gk, integ>> -> notification-log entry [ts, firing, resolved]
           ids,     \* number of groups created
-          nposts   \* number of environment posts so far
+          nposts,  \* number of environment posts so far
+          nrel     \* number of configuration reloads so far
 
-dvars == <<grp, gmap, nfl, ids, nposts>>
+dvars == <<grp, gmap, nfl, ids, nposts, nrel>>
 allvars == <<ovars, dvars>>
 
 IntegName(i) == "webhook/" \o ToString(i - 1)
@@ -74,7 +75,7 @@ KindAt(i, t) == IF \E w \in SeqToSet(Windows) : w.integ = IntegName(i) /\ w.from
 Init == /\ now = 0 /\ cfg = Derive(TheCfg) /\ ver = << >> /\ sil = << >> /\ last = << >> /\ brk = << >> /\ fl = << >>
         /\ cancd = [seen |-> {}, dead |-> << >>, deadgk |-> {}, refl |-> {}, ing |-> << >>, mby |-> << >>, lastReload |-> 0 - 1]
         /\ elig = << >> /\ chk = {}
-        /\ grp = << >> /\ gmap = << >> /\ nfl = << >> /\ ids = 0 /\ nposts = 0
+        /\ grp = << >> /\ gmap = << >> /\ nfl = << >> /\ ids = 0 /\ nposts = 0 /\ nrel = 0
 
 -----------------------------------------------------------------------------
 (* Environment *)
@@ -88,7 +89,9 @@ PostFold(st, a, v, gks) ==
            live == gk \in DOMAIN st.gmap /\ ~st.grp[st.gmap[gk]].dead
            id == AgName(st.ids + 1)
            st2 == IF live THEN [st EXCEPT !.grp[st.gmap[gk]].al = Put(@, a, v)]
-                  ELSE [grp |-> Put(st.grp, id, [gk |-> gk, al |-> (a :> v), due |-> now + Opt(gk).gw, st |-> "idle", dead |-> FALSE,
+                  ELSE [grp |-> Put(st.grp, id, [gk |-> gk, al |-> (a :> v),
+                                                  \* an alert older than group_wait is flushed at once
+                                                  due |-> IF v.start + Opt(gk).gw < now THEN now ELSE now + Opt(gk).gw, st |-> "idle", dead |-> FALSE,
                                                   tick |-> 0, dl |-> 0, frozen |-> << >>, pl |-> {}, pc |-> << >>]),
                         gmap |-> Put(st.gmap, gk, id), ids |-> st.ids + 1]
        IN PostFold(st2, a, v, Tail(gks))
@@ -103,7 +106,25 @@ Post(a, d) ==
      IN /\ Ingest(a, v)
         /\ grp' = st.grp /\ gmap' = st.gmap /\ ids' = st.ids
   /\ nposts' = nposts + 1
-  /\ UNCHANGED nfl
+  /\ UNCHANGED <<nfl, nrel>>
+
+\* configuration reload: the dispatcher is stopped (its groups die where they stand, a flush in
+\* progress is cancelled) and a new one is built, which routes every alert the provider holds
+\* again; the notification log lives on
+RECURSIVE ReloadFold(_, _)
+ReloadFold(st, as) == IF as = << >> THEN st
+                      ELSE ReloadFold(PostFold(st, Head(as), ver[Head(as)], SetToSeq(GKeys(Head(as)))), Tail(as))
+ReloadD ==
+  /\ nrel < MaxReloads
+  \* Dispatcher.Stop waits for every group's run loop: a delivery that has succeeded is recorded
+  \* (SetNotifiesStage does not look at the cancelled context) before the new dispatcher starts
+  /\ \A id \in DOMAIN grp : grp[id].st = "flushing" => \A i \in 1..NInt : grp[id].pc[i].pc # "log"
+  /\ Reloading(cfg.integs)
+  /\ LET st == ReloadFold([grp |-> [id \in DOMAIN grp |-> [grp[id] EXCEPT !.dead = TRUE, !.st = "idle"]], gmap |-> << >>, ids |-> ids],
+                          SetToSeq(DOMAIN ver))
+     IN grp' = st.grp /\ gmap' = st.gmap /\ ids' = st.ids
+  /\ nrel' = nrel + 1
+  /\ UNCHANGED <<nfl, nposts>>
 
 SilCreate(ms, off, len) ==
   /\ Len(sil) < MaxSils
@@ -136,7 +157,7 @@ FlushBeginD(id) ==
      IN /\ FlushBegin(id, g.gk, fr, g.due)
         /\ grp' = [grp EXCEPT ![id] = [g EXCEPT !.st = "flushing", !.tick = g.due, !.due = now + Opt(g.gk).gi,
                                                  !.dl = now + Max2(Opt(g.gk).gi, MinTimeout), !.frozen = fr, !.pl = pl, !.pc = pcs]]
-  /\ UNCHANGED <<gmap, nfl, ids, nposts>>
+  /\ UNCHANGED <<gmap, nfl, ids, nposts, nrel>>
 
 PayloadOf(g, i) ==
   SelectSeq(g.frozen, LAMBDA x : x.l \in g.pl /\ (SR[i] \/ x.status = "firing"))
@@ -159,7 +180,7 @@ AttemptStep(id, i) ==
                               [] kind = "unrec" -> [pc |-> "failed", n |-> p.n + 1, next |-> 0]
                               [] kind = "rec"   -> [pc |-> "retry", n |-> p.n + 1, next |-> now + RetryGap]
                               [] kind = "hang"  -> [pc |-> "hung", n |-> p.n + 1, next |-> 0]]
-  /\ UNCHANGED <<gmap, nfl, ids, nposts>>
+  /\ UNCHANGED <<gmap, nfl, ids, nposts, nrel>>
 
 \* the flush context expires: pending retries and hung deliveries end as failures
 Deadline(id) ==
@@ -169,7 +190,7 @@ Deadline(id) ==
   /\ Other
   /\ grp' = [grp EXCEPT ![id].pc = [i \in 1..NInt |->
                 IF g.pc[i].pc \in {"retry", "hung"} THEN [g.pc[i] EXCEPT !.pc = "failed"] ELSE g.pc[i]]]
-  /\ UNCHANGED <<gmap, nfl, ids, nposts>>
+  /\ UNCHANGED <<gmap, nfl, ids, nposts, nrel>>
 
 \* SetNotifiesStage
 LogStep(id, i) ==
@@ -181,7 +202,7 @@ LogStep(id, i) ==
   /\ NflogLog(g.gk, IntegName(i), F, R)
   /\ nfl' = Put(nfl, <<g.gk, i>>, [ts |-> now, firing |-> F, resolved |-> R])
   /\ grp' = [grp EXCEPT ![id].pc[i].pc = "done"]
-  /\ UNCHANGED <<gmap, ids, nposts>>
+  /\ UNCHANGED <<gmap, ids, nposts, nrel>>
 
 Finished(g) == \A i \in 1..NInt : g.pc[i].pc \in {"done", "failed"}
 Succeeded(g) == \A i \in 1..NInt : g.pc[i].pc = "done"
@@ -195,7 +216,7 @@ FlushOkStep(id) ==
   /\ LET gone == {x.l : x \in {y \in SeqToSet(g.frozen) : y.status = "resolved" /\ y.l \in DOMAIN g.al /\ g.al[y.l].upd = y.upd}}
          al2  == Drop(g.al, gone)
      IN grp' = [grp EXCEPT ![id] = [g EXCEPT !.al = al2, !.dead = (DOMAIN al2 = {}), !.st = "ending"]]
-  /\ UNCHANGED <<gmap, nfl, ids, nposts>>
+  /\ UNCHANGED <<gmap, nfl, ids, nposts, nrel>>
 
 FlushDoneStep(id) ==
   LET g == grp[id] IN
@@ -203,7 +224,7 @@ FlushDoneStep(id) ==
      \/ (g.st = "flushing" /\ Finished(g) /\ ~Succeeded(g))
   /\ FlushDone(id)
   /\ grp' = [grp EXCEPT ![id].st = "idle"]
-  /\ UNCHANGED <<gmap, nfl, ids, nposts>>
+  /\ UNCHANGED <<gmap, nfl, ids, nposts, nrel>>
 
 \* something must happen now: time may not pass
 Urgent ==
@@ -223,6 +244,7 @@ Next ==
   \/ \E a \in Used, d \in {0, 3, 9} : Post(a, d)
   \/ \E ms \in SilLib, off \in {0, 1}, len \in {2} : SilCreate(ms, off, len)
   \/ \E idx \in 0..1 : SilExp(idx)
+  \/ ReloadD
   \/ \E id \in DOMAIN grp : \/ FlushBeginD(id) \/ Deadline(id) \/ FlushOkStep(id) \/ FlushDoneStep(id)
                             \/ \E i \in 1..NInt : AttemptStep(id, i) \/ LogStep(id, i)
   \/ TickD
